@@ -448,6 +448,7 @@ func c15RunChild(t *testing.T, ins []c15Input) []c15Impl {
 		}
 		os.Remove(outPath)
 		cmd := exec.Command(os.Args[0], "-test.run", "^TestC15Child$", "-test.timeout", "20m")
+		coverChild(cmd)
 		cmd.Env = append(os.Environ(), "VERIF_C15_CHILD_IN="+inPath, "VERIF_C15_CHILD_OUT="+outPath,
 			fmt.Sprintf("VERIF_C15_CHILD_START=%d", start), "VERIF_OUT="+filepath.Join(dir, "unused.jsonl"), "VERIF_DIST=")
 		var tail strings.Builder
